@@ -108,7 +108,90 @@ func c41bStress(seed uint64) {
 	wg.Wait()
 	time.Sleep(30 * time.Millisecond)
 	restarts := c41bRestarts(seed, store, h, vN(40, 200))
-	fmt.Printf("C41B-STRESS-DONE produced=%d served=%d errors=%d restarts=%d\n", produced.Load(), fetched.Load(), errs.Load(), restarts)
+	wide := c41bWideColdStarts(seed, store, h, vN(8, 40))
+	fmt.Printf("C41B-STRESS-DONE produced=%d served=%d errors=%d restarts=%d wide_cold_starts=%d\n", produced.Load(), fetched.Load(), errs.Load(), restarts, wide)
+}
+
+// c41bWideColdStarts: the cold-start / restart / failover window over MANY partitions.
+// 4 topics x 12 partitions are created in the store, data is seeded in S3 for about
+// half of them through the old handler; then, repeatedly, a fresh handler (empty
+// h.logs) is hit by 48 goroutines released from one barrier, each first-touching a
+// DIFFERENT partition with a produce, a fetch or a list-offsets request.  single-flight
+// serialises initialisation per key only: the 48 initialisers (store lookup,
+// NewPartitionLog, RestoreFromS3, double-check and insertion into the shared h.logs
+// maps) overlap, which is where an access to h.logs outside logMu shows.
+func c41bWideColdStarts(seed uint64, store *metadata.InMemoryStore, old *handler, iters int) int {
+	ctx := context.Background()
+	r := vNewRand(seed ^ 0x51de)
+	const nTopics, nParts = 4, 12
+	var topics []string
+	for t := 0; t < nTopics; t++ {
+		name := fmt.Sprintf("c41-wide-%d", t)
+		if _, err := store.CreateTopic(ctx, metadata.TopicSpec{Name: name, NumPartitions: nParts, ReplicationFactor: 1}); err != nil {
+			fmt.Printf("C41B-NOTE create topic %s: %v\n", name, err)
+		}
+		topics = append(topics, name)
+	}
+	var corr atomic.Int32
+	corr.Store(1 << 24)
+	produce := func(h *handler, tp string, part int32, m uint32) {
+		req := &kmsg.ProduceRequest{Acks: -1, TimeoutMillis: 1000, Topics: []kmsg.ProduceRequestTopic{{Topic: tp,
+			Partitions: []kmsg.ProduceRequestTopicPartition{{Partition: part, Records: c41bBatch(m, 2)}}}}}
+		_, _ = h.Handle(ctx, &protocol.RequestHeader{CorrelationID: corr.Add(1)}, req)
+	}
+	fetch := func(h *handler, tp string, part int32, off int64) {
+		freq := &kmsg.FetchRequest{MaxWaitMillis: 1, Topics: []kmsg.FetchRequestTopic{{Topic: tp, Partitions: []kmsg.FetchRequestTopicPartition{{Partition: part, FetchOffset: off, PartitionMaxBytes: 4096}}}}}
+		resp, _ := h.Handle(ctx, &protocol.RequestHeader{CorrelationID: corr.Add(1), APIVersion: 11}, freq)
+		x := 0
+		for _, b := range resp {
+			x += int(b)
+		}
+		_ = x
+	}
+	listOffsets := func(h *handler, tp string, part int32) {
+		lreq := &kmsg.ListOffsetsRequest{ReplicaID: -1, Topics: []kmsg.ListOffsetsRequestTopic{{Topic: tp, Partitions: []kmsg.ListOffsetsRequestTopicPartition{{Partition: part, Timestamp: -1}}}}}
+		_, _ = h.Handle(ctx, &protocol.RequestHeader{CorrelationID: corr.Add(1), APIVersion: 4}, lreq)
+	}
+	// seed S3 for about half of the partitions (so RestoreFromS3 has segments to rebuild)
+	for t, tp := range topics {
+		for p := int32(0); p < nParts; p++ {
+			if (t+int(p))%2 == 0 {
+				produce(old, tp, p, uint32(t<<8|int(p)))
+				if p%4 == 0 {
+					produce(old, tp, p, uint32(1<<20|t<<8|int(p)))
+				}
+			}
+		}
+	}
+	n := 0
+	for it := 0; it < iters; it++ {
+		nh := newHandler(store, old.s3, protocol.MetadataBroker{NodeID: 1, Host: "localhost", Port: 19092}, testLogger())
+		start := make(chan struct{})
+		var wg sync.WaitGroup
+		for t, tp := range topics {
+			for p := int32(0); p < nParts; p++ {
+				tp, p, kind := tp, p, (t+int(p)+it+r.Intn(3))%3
+				wg.Add(1)
+				go func() {
+					defer wg.Done()
+					<-start
+					switch kind {
+					case 0:
+						fetch(nh, tp, p, 0)
+					case 1:
+						produce(nh, tp, p, uint32(it<<12|int(p)))
+					default:
+						listOffsets(nh, tp, p)
+					}
+				}()
+			}
+		}
+		close(start)
+		wg.Wait()
+		n++
+	}
+	time.Sleep(30 * time.Millisecond)
+	return n
 }
 
 // c41bRestarts: handler restart.  While the old handler still has requests in flight,
@@ -201,19 +284,19 @@ func TestVerifC41Broker(t *testing.T) {
 		return
 	}
 	rep := vNewReport("C41", "concurrent Produce (acks -1/1/0) / Fetch / ListOffsets / Metadata through the real handler.Handle on 3 topics (2 auto-created on first use: getPartitionLog single-flight + RestoreFromS3 under contention), 4 producer + 4 consumer goroutines, 1500-byte segment cache, read-ahead 2, S3 concurrency 3, under the Go race detector in a child process; non-trivial = a run that served > 100 requests")
-	runs := vN(2, 5)
+	runs := vN(1, 5)
 	for i := 0; i < runs && vReplayCase() == nil; i++ {
 		seed := vSeed()*1000 + 500 + uint64(i)
 		cmd := exec.Command(os.Args[0], "-test.run=^TestVerifC41Broker$", "-test.count=1", "-test.timeout=300s")
 		cmd.Env = append(os.Environ(), "VERIF_C41B_CHILD=1", fmt.Sprintf("VERIF_SEED=%d", seed), "GORACE=halt_on_error=0 history_size=3")
 		outB, err := cmd.CombinedOutput()
 		out := string(outB)
-		m := regexp.MustCompile(`C41B-STRESS-DONE produced=(\d+) served=(\d+) errors=(\d+) restarts=(\d+)`).FindStringSubmatch(out)
+		m := regexp.MustCompile(`C41B-STRESS-DONE produced=(\d+) served=(\d+) errors=(\d+) restarts=(\d+) wide_cold_starts=(\d+)`).FindStringSubmatch(out)
 		reports, keys := c41bParseRaces(out)
 		rep.Count(fmt.Sprintf("broker-stress-%d", seed), m != nil)
 		rep.Hist("broker-stress-runs")
 		if m != nil {
-			rep.Sample(map[string]any{"stress_seed": seed, "produced": m[1], "served": m[2], "request_errors": m[3], "handler_restarts": m[4], "races": len(reports)})
+			rep.Sample(map[string]any{"stress_seed": seed, "produced": m[1], "served": m[2], "request_errors": m[3], "handler_restarts": m[4], "wide_cold_starts_x48_partitions": m[5], "races": len(reports)})
 		}
 		for j, rp := range reports {
 			if len(rp) > 6000 {
